@@ -11,6 +11,11 @@
 (* (keeping or dropping the garbage) and collect between any two steps.    *)
 (*   Create(v) Hash(i) SetAdd(i) SetLookup(i)   (the harness performs the  *)
 (*   same operation on a dict)      AllocKeep AllocFree Collect            *)
+(*   Use(i)    the object is used (printed, compared, copied, searched):   *)
+(*             no effect on anything observable afterwards                 *)
+(*   Copy(i)   a new live object is made FROM object i (copy / pickle /    *)
+(*             rebuilt from its parts in another container form): it has   *)
+(*             the same value, hence must be equal and hash alike          *)
 (* Properties: an object's hash never changes (action property), equal     *)
 (* keys give equal hashes, lookups find equal values.  The ordering laws   *)
 (* are checked on the relation observed from the real code (Trace_C08).    *)
@@ -49,10 +54,14 @@ SetAdd(i) == /\ i \in DOMAIN objs /\ pyset' = pyset \cup {i} /\ hseen' = [hseen 
 SetLookup(i) == /\ i \in DOMAIN objs /\ hseen' = [hseen EXCEPT ![i] = TRUE]
                 /\ obs' = [flag |-> \E j \in pyset : Eq(Val(i), Val(j)), same |-> {}]
                 /\ act' = A("SetLookup", i) /\ UNCHANGED <<objs, pyset>>
+Use(i) == /\ i \in DOMAIN objs /\ act' = A("Use", i) /\ obs' = [flag |-> TRUE, same |-> {}] /\ UNCHANGED mech
+Copy(i) == /\ i \in DOMAIN objs /\ Len(objs) < MaxObjs
+           /\ objs' = Append(objs, objs[i]) /\ hseen' = Append(hseen, FALSE)
+           /\ act' = A("Copy", i) /\ obs' = [flag |-> TRUE, same |-> {}] /\ UNCHANGED pyset
 \* environment: allocation history (no effect on anything observable)
 Env(n) == /\ act' = A(n, 0) /\ obs' = [flag |-> TRUE, same |-> {}] /\ UNCHANGED mech
 Next == \/ \E v \in DOMAIN Values : Create(v)
-        \/ \E i \in 1..MaxObjs : Hash(i) \/ SetAdd(i) \/ SetLookup(i)
+        \/ \E i \in 1..MaxObjs : Hash(i) \/ SetAdd(i) \/ SetLookup(i) \/ Use(i) \/ Copy(i)
         \/ Env("AllocKeep") \/ Env("AllocFree") \/ Env("Collect")
 
 \* ---- properties ---------------------------------------------------------------------
